@@ -35,37 +35,37 @@ theorem C02_exactly_once_plain (c : Case)
     (hk : c.kindOk) (hw : (c.fam = .waitF ∨ c.fam = .waitS) → c.n = 2)
     (h1 : (c.ops.filter (fun o => match o with | .drop => true | _ => false)).length ≤ 1) :
     holds_C02 true c.n c.trace = true := by
-  have h1' : (c.ops.filter C02.isDrop).length ≤ 1 := by
-    rw [List.filter_congr (fun o _ => C02.isDrop_eq o)]; exact h1
+  have h1' : (c.ops.filter C02b.isDrop).length ≤ 1 := by
+    rw [List.filter_congr (fun o _ => C02b.isDrop_eq o)]; exact h1
   unfold Case.trace
   rcases hf with hf | hf | hf | hf | hf
   · simp only [hf, Fam.isGroup, Bool.false_eq_true, if_false, Case.finalFix, Fam.policy]
-    exact C02.holds_of_inv
-      (Sim.runFix (C02.sim_race c.n (Fam.race.modeOf c.mode)) c.ops _ rfl
-        (hf ▸ Sim.scriptsOk_kind c hk _ rfl) (C02.inv_init false c.n _))
-      (by rw [C02.nd_run lawful_race]; simpa [FEng.init, World.init, C02.nd] using h1')
+    exact C02b.holds_of_inv
+      (Sim.runFix (C02b.sim_race c.n (Fam.race.modeOf c.mode)) c.ops _ rfl
+        (hf ▸ Sim.scriptsOk_kind c hk _ rfl) (C02b.inv_init false c.n _))
+      (by rw [C02b.nd_run lawful_race]; simpa [FEng.init, World.init, C02b.nd] using h1')
   · simp only [hf, Fam.isGroup, Bool.false_eq_true, if_false, Case.finalFix, Fam.policy]
-    exact C02.holds_of_inv
-      (Sim.runFix (C02.sim_merge c.n (Fam.merge.modeOf c.mode)) c.ops _ rfl
-        (hf ▸ Sim.scriptsOk_kind c hk _ rfl) (C02.inv_init false c.n _))
-      (by rw [C02.nd_run lawful_merge]; simpa [FEng.init, World.init, C02.nd] using h1')
+    exact C02b.holds_of_inv
+      (Sim.runFix (C02b.sim_merge c.n (Fam.merge.modeOf c.mode)) c.ops _ rfl
+        (hf ▸ Sim.scriptsOk_kind c hk _ rfl) (C02b.inv_init false c.n _))
+      (by rw [C02b.nd_run lawful_merge]; simpa [FEng.init, World.init, C02b.nd] using h1')
   · simp only [hf, Fam.isGroup, Bool.false_eq_true, if_false, Case.finalFix, Fam.policy]
-    exact C02.holds_of_inv
-      (Sim.runFix (C02.sim_chain c.n (Fam.chain.modeOf c.mode)) c.ops _ rfl
-        (hf ▸ Sim.scriptsOk_kind c hk _ rfl) (C02.inv_init false c.n _))
-      (by rw [C02.nd_run lawful_chain]; simpa [FEng.init, World.init, C02.nd] using h1')
+    exact C02b.holds_of_inv
+      (Sim.runFix (C02b.sim_chain c.n (Fam.chain.modeOf c.mode)) c.ops _ rfl
+        (hf ▸ Sim.scriptsOk_kind c hk _ rfl) (C02b.inv_init false c.n _))
+      (by rw [C02b.nd_run lawful_chain]; simpa [FEng.init, World.init, C02b.nd] using h1')
   · have h2 := hw (Or.inl hf)
     simp only [hf, h2, Fam.isGroup, Bool.false_eq_true, if_false, Case.finalFix, Fam.policy]
-    exact C02.holds_of_inv
-      (Sim.runFix (C02.sim_waitF (Fam.waitF.modeOf c.mode)) c.ops _ rfl
-        (hf ▸ Sim.scriptsOk_kind c hk _ rfl) (C02.inv_init false 2 _))
-      (by rw [C02.nd_run lawful_waitUntilF]; simpa [FEng.init, World.init, C02.nd] using h1')
+    exact C02b.holds_of_inv
+      (Sim.runFix (C02b.sim_waitF (Fam.waitF.modeOf c.mode)) c.ops _ rfl
+        (hf ▸ Sim.scriptsOk_kind c hk _ rfl) (C02b.inv_init false 2 _))
+      (by rw [C02b.nd_run lawful_waitUntilF]; simpa [FEng.init, World.init, C02b.nd] using h1')
   · have h2 := hw (Or.inr hf)
     simp only [hf, h2, Fam.isGroup, Bool.false_eq_true, if_false, Case.finalFix, Fam.policy]
-    exact C02.holds_of_inv
-      (Sim.runFix C02.sim_waitS c.ops _ rfl
-        (hf ▸ Sim.scriptsOk_kind c hk _ rfl) (C02.inv_init true 2 _))
-      (by rw [C02.nd_run lawful_waitUntilS]; simpa [FEng.init, World.init, C02.nd] using h1')
+    exact C02b.holds_of_inv
+      (Sim.runFix C02b.sim_waitS c.ops _ rfl
+        (hf ▸ Sim.scriptsOk_kind c hk _ rfl) (C02b.inv_init true 2 _))
+      (by rw [C02b.nd_run lawful_waitUntilS]; simpa [FEng.init, World.init, C02b.nd] using h1')
 
 /-! ### non-vacuity -/
 
